@@ -622,6 +622,16 @@ func (self *LockManager) AddLock(lock *Lock) *Lock {
 	return lock
 }
 
+func (self *LockManager) GetWillAofTime(lock *Lock) uint8 {
+	if self.currentLock != nil {
+		return self.currentLock.aofTime
+	}
+	if lock.command.ExpriedFlag&0x1300 == protocol.EXPRIED_FLAG_UNLIMITED_AOF_TIME {
+		return 0xff
+	}
+	return 0
+}
+
 func (self *LockManager) RemoveLock(lock *Lock) *Lock {
 	lock.locked = 0
 	lock.ackCount = 0xff
